@@ -1,6 +1,7 @@
 (** * C03 — mutable access only for a sole owner, ordered after all former sharers.  Property theorems only. *)
 From Coq Require Import NArith List Bool Arith.
 From TV Require Import Layout SrcFacts Conc ConcProofs ConcX ConcXProofs Mech MechProofs MechLog MechProps Extracted.
+From TV Require Import SchedCases SchedProofs.
 Import ListNotations.
 Open Scope N_scope.
 
@@ -104,6 +105,14 @@ Proof. exact xsafe. Qed.
 Theorem C03_functions_are_the_modelled_ones : Extracted.cow_forms_ok = true.
 Proof. reflexivity. Qed.
 
+(** The schedule stream (tools/propdefs.py, harness/src/sched.rs) drives real threads of the crate through label
+    streams filtered by the machine and compares every step.  Whatever the generator produces, what the machine accepts
+    is one of the executions the theorem above is about: the final state of every case of the stream is safe. *)
+Theorem C03_every_schedule_of_the_stream_is_covered :
+  forall fuel ls, bad (fst (run_labels Extracted.count_progs fuel xinit ls)) = false.
+Proof. exact sched_stream_is_covered. Qed.
+
+
 Check C03_grant_is_ordered_after_all_sharers.
 Print Assumptions C03_is_unique_iff_sole_owner.
 Print Assumptions C03_try_unique_iff_sole_owner.
@@ -117,3 +126,4 @@ Print Assumptions C03_acquire_on_the_test_is_necessary.
 Print Assumptions C03_protocol_as_written.
 Print Assumptions C03_functions_are_the_modelled_ones.
 Print Assumptions C03_protocol_as_written_is_safe.
+Print Assumptions C03_every_schedule_of_the_stream_is_covered.
